@@ -158,6 +158,10 @@ pub open spec fn sp_item(s: Seq<char>, depth: int, out: Seq<Seq<char>>) -> (Seq<
         let grp = if s[0] == '{' { sp_group(s.drop_first(), depth + 1, Seq::empty(), false) } else { None };
         if grp.is_some() && grp.unwrap().1.len() < s.len() {
             sp_item(grp.unwrap().1, depth, cross(out, grp.unwrap().0))
+        } else if s[0] == '{' && depth > 0 && grp.is_none() {
+            // inside a group: an inner `{` without a `}` means there is no `}` left for the enclosing group either; it fails whatever the
+            // rest holds, so the rest is not looked at (this is what keeps the parser from trying every inner `{` twice per level: C05)
+            (out, Seq::empty())
         } else if s[0] == '\\' && s.len() > 1 {
             sp_item(s.skip(2), depth, app_each(out, seq!['\\', s[1]]))
         } else {
